@@ -235,21 +235,31 @@ def c10(run, args):
     rng = random.Random(run.seed)
     vh = run.build_harness()
     run.model_check("MCMailstore", MC_CFG % dict(caps="0, 2", limits="0", maxadds=3 if quick else 4), label="MCMailstore(caps)")
-    bfs = run.generate("GenMailstore", gen_cfg(2, [1], [1], 4 if quick else 5, reopen=[0, 1, 2], scan=False, seen=True))
+    useful = lambda bs: [b for b in bs if any(o["op"] == "reopen" for o in b) and any(o["op"] == "add" for o in b)]
+    bfs = run.generate("GenMailstore", gen_cfg(2, [1], [1], 4, reopen=[0, 1, 2], scan=False, seen=True))
     # one mailbox, deliveries and reopen with every cap only, deeper: reaches mailboxes several messages over a lowered cap
-    bfs += run.generate("GenMailstore", gen_cfg(1, [1], [1], 6 if quick else 8, reopen=[0, 1, 2, 3], ops=["add"]))
+    bfs += run.generate("GenMailstore", gen_cfg(1, [1], [1], 6, reopen=[0, 1, 2, 3], ops=["add"]))
     # keep only sequences with at least one reopen that is followed or preceded by a mutation
-    bfs = [b for b in bfs if any(o["op"] == "reopen" for o in b) and any(o["op"] == "add" for o in b)]
+    bfs = useful(bfs)
+    # thorough: a seed-chosen sample of the next depths as well (all of them: ~600 000 sequences, ~25 GB of traces)
+    deeper = []
+    if not quick:
+        d5 = [b for b in useful(run.generate("GenMailstore", gen_cfg(2, [1], [1], 5, reopen=[0, 1, 2], scan=False, seen=True))) if len(b) == 5]
+        d8 = [b for b in useful(run.generate("GenMailstore", gen_cfg(1, [1], [1], 8, reopen=[0, 1, 2, 3], ops=["add"]))) if len(b) >= 7]
+        rng.shuffle(d5)
+        rng.shuffle(d8)
+        deeper = d5[:30000] + d8[:30000]
     sim = run.generate("GenMailstore", gen_cfg(3, [1, 2], [0, 1], 40 if quick else 80, reopen=[0, 1, 2, 3]),
                        simulate={"num": 100, "depth": 41 if quick else 81})
     sim = sim[:80 if quick else 800]
-    count_distinct(run, bfs + sim)
+    count_distinct(run, bfs + deeper + sim)
     run.cov["exhaustive"] = True
     beh = concretise(run, bfs, ["file"], lambda i, st: [(0, 0), (2, 0)] if not quick else [((i + run.seed) % 2 * 2, 0)], 500, rng, "bfs")
+    beh += concretise(run, deeper, ["file"], lambda i, st: [((i + run.seed) % 2 * 2, 0)], 500, rng, "deep")
     beh += concretise(run, sim, ["file"], lambda i, st: [(0, 0), (3, 0)], 500, rng, "sim", probe_every=4)
     # the server is stopped and started again between any two operations: every mutating operation runs in a fresh child
     # process on the same path (process-global state such as the id counter starts over)
-    prs = run.generate("GenMailstore", gen_cfg(2, [1], [1], 4 if quick else 5, scan=False, seen=True))
+    prs = run.generate("GenMailstore", gen_cfg(2, [1], [1], 4, scan=False, seen=True))
     prs = [b for b in prs if sum(1 for o in b if o["op"] == "add") >= 2]
     rng.shuffle(prs)
     prs = prs[:150 if quick else 1500]
